@@ -225,6 +225,7 @@ func runC13(cfg *vh.Config) error {
 			res.Fail(vh.Failure{Case: i, Stream: "edit", Sig: "C13 compiler panic", Clause: "valid packages compile", Input: in, Got: fmt.Sprint(g0.panic, g1.panic)})
 			continue
 		}
+		knownAppends := j5sgen.EmptyEnumAppends(b0, pkg, edits)
 		switch {
 		case !g0.ok:
 			res.Count("before_rejected")
@@ -235,7 +236,7 @@ func runC13(cfg *vh.Config) error {
 		default:
 			res.Count("both_compiled")
 			distinct.Add(fmt.Sprint(t0, edits))
-			for _, v := range (&c13oracle{emptyEnumAppends: j5sgen.EmptyEnumAppends(b0, pkg, edits)}).files(g0.files, g1.files) {
+			for _, v := range (&c13oracle{emptyEnumAppends: knownAppends}).files(g0.files, g1.files) {
 				res.Fail(vh.Failure{Case: i, Stream: "edit", Sig: v.Sig, Clause: v.Clause, Input: in, Got: v.Got, Want: v.Want})
 			}
 		}
@@ -246,7 +247,9 @@ func runC13(cfg *vh.Config) error {
 		okall0, okall1 := acceptsAll(b0, t0, pkg, g0.ok), acceptsAll(b1, t1, pkg, g1.ok)
 		// embeds: the old descriptors are expected to embed into the new ones - always, except
 		// for the hand-written pair of the known finding
-		embeds := !(i < len(pairs) && pairs[i].KnownNoEmbed)
+		// ... and for generated pairs that contain an instance of it (an option ending in UNSPECIFIED
+		// appended first to an enum without options, anywhere)
+		embeds := !(i < len(pairs) && pairs[i].KnownNoEmbed) && len(knownAppends) == 0
 		cf.Terms = append(cf.Terms, fmt.Sprintf("CEdit\n   %s\n   [%s]\n   %s\n   %s %s %s %s %s %s\n   %s\n   %s", b0.Coq(), strings.Join(es, ";\n    "), b1.Coq(), j5sgen.S(pkg),
 			vh.BoolTerm(g0.ok), vh.BoolTerm(g1.ok), vh.BoolTerm(okall0), vh.BoolTerm(okall1), vh.BoolTerm(embeds), filesCoq(g0.files), filesCoq(g1.files)))
 		res.Cases = append(res.Cases, vh.CaseRec{Case: i, Stream: "edit", Input: in, Impl: map[string]any{"ok_before": g0.ok, "ok_after": g1.ok, "err_after": g1.err}})
